@@ -433,6 +433,11 @@ class SimClient:
             self.sim.log('Cx', self.name)
             self.subscribed = set()
             self.headers_subscribed = False
+            # requests still unanswered will never be answered
+            cbs, self.on_reply = self.on_reply, {}
+            for rid in sorted(cbs):
+                cbs[rid](dict(error={'code': 'connection closed'}, closed=True, ev=self.sim.steps,
+                              t=self.sim.now))
 
     def pending(self):
         return [rid for rid in self.sent if rid not in self.replies]
